@@ -208,7 +208,7 @@ def check_c05(rep, thorough):
                 ("c05_chain", ["Reorder", "Rotate"], dict(OPS='{"Reorder", "Rotate"}', MAXLEN=2, NWS="{2}", KDIRS=2, MAXHOPS=1, NEPS=1, NCEN=1, PHS="{1, 2}"), 80)]
     else:
         cfgs = [("c05_reorder", ["Reorder"], dict(OPS='{"Reorder"}', NWS="{1, 2}", MAXHOPS=1, NEPS=1, NCEN=2, WITHX="{FALSE, TRUE}"), 15),
-                ("c05_chain", ["Reorder", "Rotate"], dict(OPS='{"Reorder", "Rotate"}', MAXLEN=2, NWS="{2}", KDIRS=1, MAXHOPS=1, NEPS=1, NCEN=2, PHS="{0, 1}"), 15)]
+                ("c05_chain", ["Reorder", "Rotate"], dict(OPS='{"Reorder", "Rotate"}', MAXLEN=2, NWS="{2}", KDIRS=1, MAXHOPS=1, NEPS=1, NCEN=2, PHS="{1}"), 15)]
     for name, classes, kw, every in cfgs:
         st = O.run_ops(rep, name, w, **kw)
         if st is None:
